@@ -353,6 +353,32 @@ func (n *RNode) LisCounts() map[string]int {
 
 var boltSeq atomic.Int64
 
+// MgrOpts are passed to every chain.NewManager the harness creates (set by a driver for the
+// duration of a history, e.g. chain.WithExpiringContractOrder).
+var MgrOpts []chain.ManagerOption
+
+// LinearExpiryOrder is the argument of chain.WithExpiringContractOrder that pins, for every block of
+// the tree with two or more expiring v1 contracts, the order in which a node that only ever saw the
+// block's chain linearly lists them.
+func LinearExpiryOrder(t *mat.Tree) map[types.BlockID][]types.FileContractID {
+	m := map[types.BlockID][]types.FileContractID{}
+	for _, nd := range t.Nodes {
+		if nd.L == nil || len(nd.L.Supps) == 0 {
+			continue
+		}
+		exp := nd.L.Supps[len(nd.L.Supps)-1].ExpiringFileContracts
+		if len(exp) < 2 {
+			continue
+		}
+		var ids []types.FileContractID
+		for _, fce := range exp {
+			ids = append(ids, fce.ID)
+		}
+		m[nd.Block.ID()] = ids
+	}
+	return m
+}
+
 // Reopen opens a fresh node of the same backend on a copy of a committed image.
 func (n *RNode) Reopen(snap *chain.MemDB, snapshots bool) (*RNode, error) {
 	return OpenNodeOn(n.W, CopyDB(snap), n.Backend, snapshots)
@@ -443,7 +469,7 @@ func OpenNodeOn(w *mat.World, db chain.DB, backend string, snapshots bool) (*RNo
 		// reopened database: the committed image is what we were given
 		n.DB.Snaps = append(n.DB.Snaps, n.DB.Image())
 	}
-	n.CM = chain.NewManager(n.Store, cs)
+	n.CM = chain.NewManager(n.Store, cs, MgrOpts...)
 	n.CM.OnReorg(func(types.ChainIndex) { n.nmu.Lock(); n.Notifs++; n.nmu.Unlock() })
 	return n, nil
 }
@@ -821,13 +847,62 @@ func (n *RNode) Audit(t *mat.Tree, nm *mat.Names, maxH int, p Projection) (out [
 // of the chain.DB buckets.  Stale tree nodes above the current leaf count and records of
 // non-best-chain blocks are outside the comparison (db.go documents the former).
 func (n *RNode) TwinDiff(t *mat.Tree, tipID int) (out [][2]string) {
+	out, differs, orderBlocks := n.twinDiff(t, tipID, nil)
+	if differs == 0 || orderBlocks == 0 {
+		return out
+	}
+	// Some bucket VALUES differ and at least one best-chain block was applied with its expiring
+	// contracts in another order than on a linear node (finding C02-expiry-order).  Decide whether
+	// the order alone explains the differences: a second linear twin whose manager is told
+	// (chain.WithExpiringContractOrder) to use exactly the orders THIS node used must then agree
+	// with this node on every bucket; anything it still disagrees on is a different violation.
+	observed := map[types.BlockID][]types.FileContractID{}
+	for _, id := range t.PathTo(tipID) {
+		bid := t.Node(id).Block.ID()
+		if _, bs, ok := n.Store.Block(bid); ok && bs != nil && len(bs.ExpiringFileContracts) >= 2 {
+			var ids []types.FileContractID
+			for _, fce := range bs.ExpiringFileContracts {
+				ids = append(ids, fce.ID)
+			}
+			observed[bid] = ids
+		}
+	}
+	out2, differs2, _ := n.twinDiff(t, tipID, observed)
+	if differs2 > 0 {
+		for i := range out2 {
+			if out2[i][0] != "audit:c02:expiry-order" {
+				out2[i][1] += " (even on a linear twin that applies the blocks with this node's own expiration orders)"
+			}
+		}
+		return out2
+	}
+	var kept [][2]string
+	for _, a := range out {
+		if a[0] == "audit:c02:expiry-order" || !strings.HasSuffix(a[0], ":differs") {
+			kept = append(kept, a)
+		}
+	}
+	kept = append(kept, [2]string{"audit:c02:expiry-order", fmt.Sprintf("%d values of the States/element/Tree buckets differ from a linear node's exactly as the history-dependent expiration order implies (a linear twin told to use this node's orders agrees with it on every bucket): missed-proof outputs got other leaf indices", differs)})
+	return kept
+}
+
+// twinDiff compares every bucket with a node that applied the best chain genesis..tipID linearly
+// (with the given expiration orders pinned, if any).  differs counts value differences that are
+// not themselves differences of expiration ORDER; orderBlocks counts best-chain blocks whose
+// stored supplement lists the expiring contracts in another order than the twin's.
+func (n *RNode) twinDiff(t *mat.Tree, tipID int, order map[types.BlockID][]types.FileContractID) (out [][2]string, differs, orderBlocks int) {
 	add := func(sig, f string, a ...any) { out = append(out, [2]string{sig, fmt.Sprintf(f, a...)}) }
+	saved := MgrOpts
+	if order != nil {
+		MgrOpts = []chain.ManagerOption{chain.WithExpiringContractOrder(order)}
+	}
 	twin := NewNode(t.W, false)
+	MgrOpts = saved
 	path := t.PathTo(tipID)
 	for _, id := range path[1:] {
 		if err := twin.CM.AddBlocks([]types.Block{t.Node(id).Block}); err != nil {
 			add("audit:c02:twin-rejects", "linear twin rejects best-chain block %d: %v", id, err)
-			return
+			return out, 1, 0
 		}
 	}
 	a, b := DumpDB(n.DB), DumpDB(twin.DB)
@@ -844,13 +919,16 @@ func (n *RNode) TwinDiff(t *mat.Tree, tipID int) (out [][2]string) {
 			switch {
 			case !ok:
 				add("audit:c02:twin:"+bucket+":missing", "bucket %s: key %x served by the linear twin is missing", bucket, k)
+				differs++
 			case bytes.Equal(nv, tv):
 			case bucket == "FileContracts" && len(k) == 8 && sameIDSet(nv, tv):
 				add("audit:c02:expiry-order", "bucket FileContracts: expiration list %x has a different ORDER than on the linear twin", k)
 			case bucket == "Blocks" && sameBlockUpToExpiryOrder(nv, tv):
 				add("audit:c02:expiry-order", "bucket Blocks: stored supplement of block %x lists expiring contracts in a different order than on the linear twin", k)
+				orderBlocks++
 			default:
 				add("audit:c02:twin:"+bucket+":differs", "bucket %s: key %x differs from the linear twin (%d vs %d bytes)", bucket, k, len(nv), len(tv))
+				differs++
 			}
 		}
 		if bucket == "Tree" {
@@ -867,6 +945,7 @@ func (n *RNode) TwinDiff(t *mat.Tree, tipID int) (out [][2]string) {
 				continue // an emptied expiration list
 			}
 			add("audit:c02:twin:"+bucket+":extra", "bucket %s: key %x is not served by the linear twin", bucket, k)
+			differs++
 		}
 	}
 	return
